@@ -15,7 +15,7 @@ import os
 from vlib import core, e2e
 
 # the generated per-row capture files (tools/mk_regexcap3.py): RegexCapture3 (index), RegexCapture3a… (parts), RegexCapture3Spec
-_RC3 = sorted(os.path.splitext(os.path.basename(p))[0] for p in glob.glob(os.path.join(os.path.dirname(os.path.abspath(__file__)), '..', '..', 'lean', 'S4V', 'Props', 'RegexCapture3*.lean')))
+_RC3 = sorted(os.path.splitext(os.path.basename(p))[0] for p in glob.glob(os.path.join(os.path.dirname(os.path.abspath(__file__)), '..', '..', 'lean', 'S4V', 'Props', 'RegexCapture3*.lean')) + glob.glob(os.path.join(os.path.dirname(os.path.abspath(__file__)), '..', '..', 'lean', 'S4V', 'Props', 'RegexE2E*.lean')))
 MODS_BASE = ['S4V.Props.TimeSpec', 'S4V.Props.RegexSpec', 'S4V.Props.RegexCapture', 'S4V.Props.RegexCapture2', 'S4V.Props.RegexCapture2Auto', 'S4V.Props.PatSelSpec', 'S4V.Props.CapturesSpec', 'S4V.Props.CapturesMutants']
 MODS = MODS_BASE + ['S4V.Props.' + m for m in _RC3]
 LEVEL_NOTE = ("Proved (S4V.Props.TimeSpec over the hand model of captures_to_buffer_bytes + datetime_parse_from_str and the tables regenerated from "
@@ -91,6 +91,13 @@ def probes():
         sig='time:may-dot-unmatched-by-MONTHBb')
     add('long-names-zone-cut', lambda i: f'Wednesday, September 30, 2024, 01:02:0{i} -08:15 m', lambda i: ns(2024, 9, 30, 1, 2, i, 0, -29700),
         sig='time:zone-beyond-range_regex-end')
+    # F36 / F37 (found by the RegexE2E slice: catalogue renderings longer than range_regex.end): a LONG month name in the
+    # `2023 Aug 31 20:01:05 +01:00` rows (range end 30) cuts the zone; in the zone-less row (range end 25) it cuts the seconds, so only
+    # the year-less row matches and the year written in the text is replaced by the file's mtime year
+    add('long-month-zone-cut', lambda i: f'2023 September 30 20:01:0{i} +05:30 [ERROR] m', lambda i: ns(2023, 9, 30, 20, 1, i, 0, 19800),
+        sig='time:zone-beyond-range_regex-end-YbdHMS-rows')
+    add('long-month-year-dropped', lambda i: f'2023 September 30 20:01:0{i} [ERROR] m', lambda i: ns(2023, 9, 30, 20, 1, i, 0, 0),
+        sig='time:year-dropped-range_regex-end-25')
     return P
 
 
@@ -252,7 +259,7 @@ def oracle_all(ctx):
 
 
 def check(ctx):
-    return core.standard_check(ctx, ['TimeTables', 'Regex', 'PatSel', 'Captures'], MODS, [('time', 3000, 60000), ('capx', 2000, 20000), ('rgx', 12000, 150000), ('rgxr', 60000, 680000), ('patsel', 500, 6000)], oracle_all, LEVEL_NOTE, ASSUME)
+    return core.standard_check(ctx, ['TimeTables', 'Regex', 'PatSel', 'Captures'], MODS, [('time', 3000, 60000), ('capx', 2000, 20000), ('e2e', 2000, 20000), ('rgx', 12000, 150000), ('rgxr', 60000, 680000), ('patsel', 500, 6000)], oracle_all, LEVEL_NOTE, ASSUME)
 
 
 def replay(ctx, data):
